@@ -226,7 +226,7 @@ def _work(args):
 
 
 def run(chk):
-    n = 600 if chk.tier == 'quick' else 12000
+    n = 1500 if chk.tier == 'quick' else 12000
     chk.rule = ('frames built from valid scenes by one or two defects out of: ' + ', '.join(sorted(set(DEFECTS))) +
                 '; non-trivial = at least one defect applied; distinct by the protocol rendering of the frame')
     with Pool(16) as pool:
